@@ -180,14 +180,36 @@ def buildOutput(sections: list, out: OrderedDict):
             counts[name][1] = modifier + 1
 
 
+def keyEndIndex(line: str) -> int:
+    """
+    Returns the index of the closing quote of the JSON object key that starts
+    the line, or -1 if the line does not start with a key (e.g. it is a string
+    element of a list).  Escaped characters inside the key are skipped, so a
+    quote or colon that is part of a key or of a string value is never
+    mistaken for the key/value separator.
+    """
+    i = len(line) - len(line.lstrip(" "))
+    if i >= len(line) or line[i] != '"':
+        return -1
+    i += 1
+    while i < len(line):
+        if line[i] == "\\":
+            i += 2
+        elif line[i] == '"':
+            return i if line[i + 1:i + 2] == ":" else -1
+        else:
+            i += 1
+    return -1
+
+
 def prettyPrint(Mdata: str, desiredSpace: int = 34) -> str:
     # After index of these 2 characters ":  need to add desired space.
     CHARACTER_SPACE = 2
     lines = Mdata.split("\n")
     for i in range(len(lines)):
         line = lines[i]
-        if "\":" in line and "{" not in line:
-            ind = line.index("\":")
+        ind = keyEndIndex(line) if "{" not in line else -1
+        if ind >= 0:
             spaces = (desiredSpace - ind) * " "    # Calculating spaces needed to add to get the desired spacing.
             ind += CHARACTER_SPACE
             lines[i] = line[:ind] + spaces + line[ind:]
